@@ -30,6 +30,8 @@ func TestCheck(t *testing.T) {
 			"ShardIDFor == (1) and every allocate (PUT .../status) / acquire (POST .../acquire) for random upstream names arrives at the server the table names for the shard; then one (thorough: several) leadership move(s), " +
 			"requests may reach the old or the new leader until the first arrival at the new one, afterwards only the new one; then the fleet is re-deployed behind the same URLs with a larger and then a smaller shard count " +
 			"(thorough: more): once never-seen probe names show the new N and every new shard's leader, every name looked up under the old N must map by FNV-1a/32 mod the NEW N and arrive at that shard's leader; " +
+			"(2b) a second gateway against a fleet whose published leader table is sparse, as the real ServerInfo() builds it (only shards with an elector entry, sorted by ShardID; entries with an empty leader): at start-up, after a move with all shards led, " +
+			"and during a fail-over gap; judged once two further server-info requests have arrived: a published shard's calls arrive exactly at its leader, a leaderless shard's calls fail, go nowhere or go to a server once published for that same shard; " +
 			"(3) server side: random histories of gain / loss (callback and table-only + leaderCheck) per shard interleaved with UpdateRateLimitConditionStatus / DoAcquire / cluster add-update-delete / cleanupUnknownCondition " +
 			"for random upstream names (arbitrary bytes): while not leader the call must fail naming the table's leader (handler: silently) and the contents of every shard store (conditions + per-instance counts) must be unchanged; " +
 			"after a loss the shard has no store; after a regain nothing of the earlier epoch is visible; ServerInfo().ManagedShards == shards led; " +
@@ -56,6 +58,12 @@ func TestCheck(t *testing.T) {
 				flushFailScenario(r, fr, viaLeaderCheck)
 			}()
 		}
+		wg.Add(1)
+		spRng := r.Rng.Fork("sparse")
+		go func() { // part 2b: sparse leader tables (needs ~3 x 2 sync rounds of wall time)
+			defer wg.Done()
+			sparseTables(r, spRng)
+		}()
 		shardFn(r)
 		serverSide(r)
 		k8sStore(r)
@@ -64,6 +72,7 @@ func TestCheck(t *testing.T) {
 		r.Require(r.Counter("gw_requests_judged") >= 100, "gateway side judged too few requests")
 		r.Require(r.Counter("gw_moves_converged") >= 1, "gateway side saw no leadership move converge")
 		r.Require(r.Counter("gw_shard_count_grows") >= 1 && r.Counter("gw_shard_count_shrinks") >= 1 && r.Counter("gw_shard_count_changes_converged") >= 2, "gateway side did not see the fleet's shard count grow and shrink")
+		r.Require(r.Counter("gw_sparse_phases") >= 3 && r.Counter("gw_sparse_published_judged") >= 100 && r.Counter("gw_sparse_unpublished_judged") >= 10, "gateway side: sparse leader tables were not exercised")
 		r.Require(r.Counter("srv_flushfail_scenarios") >= 1 && r.Counter("srv_flushfail_conditions_compared_with_api") >= 1, "the flush-failure scenario (k8s store) did not complete")
 		r.Require(r.Counter("srv_refusals_judged") >= 1000, "server side judged too few not-leader calls")
 		r.Require(r.Counter("srv_served_allocate") >= 300 && r.Counter("srv_served_acquire_accepted") >= 300, "server side served too few calls while leading")
